@@ -256,8 +256,8 @@ pub(crate) fn f7(tier: Tier) -> Vec<Query> {
     for q in menu(tier, &corr, 3) {
         out.push(Select::new(vec![item(ta()), item(tb()), item_as(scalar(q.clone()), "s")], table("t")).query());
     }
-    for q in menu(tier, &corr, 2) {
-        out.push(sel(vec![ta(), tb()], table("t")).filter(b(BinOp::Lt, tb(), scalar(q))).query());
+    for q in [&corr[0], &corr[3], &corr[4]].into_iter().take(if tier == Tier::Quick { 2 } else { 3 }) {
+        out.push(sel(vec![ta(), tb()], table("t")).filter(b(BinOp::Lt, tb(), scalar(q.clone()))).query());
     }
     // scalar subquery that may return several rows (may fail)
     out.push(Select::new(vec![item(ta()), item_as(scalar(su(vec![item(uc())], Some(eq(ua(), ta())))), "s")], table("t")).query());
